@@ -25,6 +25,12 @@ def obligations(tier):
                   bounds="origin/extent/padding units (5 x 5) x presence of extent, padding, width, height x relativize x fit_to_screen"))
     obs.append(ch("fit_printed", "harness.C13_geom", timeout=T, functions=("Layout.fit_to_screen", "Size.__str__"), exhaustive=True,
                   bounds="two-decimal origins {10, 10.01, 35.5, 89.99, 50} and extents {0.01, 54.5, 79.99, 80, 90, 40} or absent: printed sums"))
+    obs.append(ch("writer_fit", "harness.C13_geom", timeout=T, functions=F, exhaustive=True,
+                  bounds="the same region in each of the five units x extent absent / overflowing x origin at 10% or 50% x two video sizes: fit-to-screen must act on the relativized layout"))
+    obs.append(ch("vtt_sequence", "harness.C13_geom", timeout=T, functions=("WebVTTWriter._convert_positioning",), exhaustive=True,
+                  bounds="a writer with one video size converts a px layout, then a second writer (other size / same size / no size / width only) converts an equal layout"))
+    obs.append(ch("dfxp_levels", "harness.C13_geom", timeout=T, functions=("DFXPWriter.write", "RegionCreator", "_convert_layout_to_attributes"), exhaustive=True,
+                  bounds="an absolute layout (5 units) attached at the caption-set, language, caption or node level, fit_to_screen on/off; every written region attribute must be in percent"))
     return obs
 
 
@@ -32,6 +38,7 @@ ASSUME = [
     "E2: values p/10^k with p < 10^6, k <= 3 parsed by float(); video dimensions from the list 1, 320, 360, 480, 576, 640, 720, 1080, 1280, 1920, 3840, 997 (division by a symbolic dimension is non-linear); tolerance 2^-30 absolute + 2^-48 relative for three double roundings; the two-decimal printing of a value within that tolerance is within 0.005 of the exact percentage",
     "fit_to_screen values: every double origin in the safe area, every double extent in [2^-7, 128) or absent; slack of one rounding (2^-40)",
     "cell units need a video dimension only to tell the axis; a missing dimension raises (accepted by the statement: refusing instead of guessing)",
+    "fit-to-screen of the language-level (div) region is pinned by tests/test_dfxp_conversion.py::test_empty_cue (written without extent) and therefore outside the checked domain; its relativization is checked",
     "E1: magnitudes are finite choices (no symbolic floats under CrossHair); writers' bs4 serialisation of the attribute strings is a contract",
 ]
 
